@@ -26,6 +26,9 @@ type SpecData struct {
 	// CloseAfterRunnerFailure: App.Close is also called when Run failed because an application
 	// runner returned an error (the container was ready by then).
 	CloseAfterRunnerFailure bool `json:"closeAfterRunnerFailure,omitempty"`
+	// RetryRefresh: when Run failed, the application retries the refresh on the same App
+	// (App.Refresh()); if that succeeds the container is shut down like a started one.
+	RetryRefresh bool `json:"retryRefresh,omitempty"`
 	// GetPaths: configuration paths to read through App.Get after Run.
 	GetPaths []string `json:"getPaths,omitempty"`
 	Parallel bool     `json:"parallel,omitempty"`
